@@ -17,7 +17,7 @@ dab == N("ab", FALSE, FALSE, FALSE, "", 2)                 \* sibling of "a" who
 L1 == N("l1.cmake", TRUE, TRUE, TRUE, "l1", 6)             \* written with a Latin-1 byte: not UTF-8
 XY == N("x-y.cmake", TRUE, TRUE, TRUE, "x-y", 7)             \* sorts before x.cmake ('-' < '.')
 HD == N(".h.cmake", TRUE, TRUE, TRUE, ".h", 0)                \* a hidden file: a CMake file like any other
-ED == N("é.cmake", TRUE, TRUE, TRUE, "é", 5)                   \* 'e' + combining acute: the name as the file system hands it out (not NFC)
+ED == N("e~.cmake", TRUE, TRUE, TRUE, "e~", 5)                   \* "e~" stands for 'e' + combining acute (the harness substitutes it: TLC's ToJson mangles characters above U+00FF): a name that is not NFC
 XD == N("x.d.cmake", TRUE, TRUE, TRUE, "x.d", 9)             \* agrees with x.cmake up to the first dot; only the last extension goes
 doutold == N("out-old", FALSE, FALSE, FALSE, "", 7)      \* a sibling whose name merely begins like the output directory's
 
@@ -58,12 +58,12 @@ Pabs(txt, path) == [txt |-> txt, comp |-> {}, dironly |-> FALSE, abs |-> <<TRUE,
 Pin(txt, parent, comp) == [txt |-> txt, comp |-> comp, dironly |-> FALSE, abs |-> <<FALSE, <<>>>>, parent |-> parent]
 \* the whole input is excluded: by its own absolute path, and by '<ancestor>/*' (everything below that ancestor)
 WholeInput == { {Pabs("@", <<>>)}, {Pabs("**/%P/*", <<>>)} }
-MCPatternSets == WholeInput \cup { {}, {Pin("**/b/*.cmake", "b", {"x.cmake", "z.cmake", "x-y.cmake", "d.e-f.cmake", "l1.cmake", "x.d.cmake", ".h.cmake", "é.cmake"})}, {Pin("**/a/b", "a", {"b"})}, {P("x.cmake/", {"x.cmake"}, TRUE), P("b/", {"b"}, TRUE)}, {P("*.cmake/", {"x.cmake", "z.cmake", "x-y.cmake", "d.e-f.cmake", "l1.cmake", "x.d.cmake", ".h.cmake", "é.cmake"}, TRUE)}, {P("a/", {"a"}, TRUE)}, {P("a/", {"a"}, TRUE), P("b", {"b"}, FALSE)}, {P("x.cmake", {"x.cmake"}, FALSE)},
+MCPatternSets == WholeInput \cup { {}, {Pin("**/b/*.cmake", "b", {"x.cmake", "z.cmake", "x-y.cmake", "d.e-f.cmake", "l1.cmake", "x.d.cmake", ".h.cmake", "e~.cmake"})}, {Pin("**/a/b", "a", {"b"})}, {P("x.cmake/", {"x.cmake"}, TRUE), P("b/", {"b"}, TRUE)}, {P("*.cmake/", {"x.cmake", "z.cmake", "x-y.cmake", "d.e-f.cmake", "l1.cmake", "x.d.cmake", ".h.cmake", "e~.cmake"}, TRUE)}, {P("a/", {"a"}, TRUE)}, {P("a/", {"a"}, TRUE), P("b", {"b"}, FALSE)}, {P("x.cmake", {"x.cmake"}, FALSE)},
                    {P("x.cmake", {"x.cmake"}, FALSE), P("z.cmake", {"z.cmake"}, FALSE)}, {P("*.CMAKE", {"Y.CMAKE"}, FALSE)},
-                   {P("**/b", {"b"}, FALSE)}, {Pabs("@/a/x.cmake", <<da, X>>)}, {P("*.cmake", {"x.cmake", "z.cmake", "x-y.cmake", "d.e-f.cmake", "l1.cmake", "x.d.cmake", ".h.cmake", "é.cmake"}, FALSE), P("n.txt", {"n.txt"}, FALSE)},
+                   {P("**/b", {"b"}, FALSE)}, {Pabs("@/a/x.cmake", <<da, X>>)}, {P("*.cmake", {"x.cmake", "z.cmake", "x-y.cmake", "d.e-f.cmake", "l1.cmake", "x.d.cmake", ".h.cmake", "e~.cmake"}, FALSE), P("n.txt", {"n.txt"}, FALSE)},
                    {P("b/", {"b"}, TRUE), P("x.cmake", {"x.cmake"}, FALSE)} }
-SmallPatternSets == WholeInput \cup { {Pabs("@/a/x.cmake", <<da, X>>)}, {}, {P("*.CMAKE", {"Y.CMAKE"}, FALSE)}, {Pin("**/b/*.cmake", "b", {"x.cmake", "z.cmake", "x-y.cmake", "d.e-f.cmake", "l1.cmake", "x.d.cmake", ".h.cmake", "é.cmake"})}, {P("x.cmake/", {"x.cmake"}, TRUE), P("b/", {"b"}, TRUE)}, {P("z.cmake", {"z.cmake"}, FALSE)}, {P("a/", {"a"}, TRUE), P("b", {"b"}, FALSE)}, {P("x.cmake", {"x.cmake"}, FALSE), P("z.cmake", {"z.cmake"}, FALSE)},
-                      {P("*.cmake", {"x.cmake", "z.cmake", "x-y.cmake", "d.e-f.cmake", "l1.cmake", "x.d.cmake", ".h.cmake", "é.cmake"}, FALSE)} }
+SmallPatternSets == WholeInput \cup { {Pabs("@/a/x.cmake", <<da, X>>)}, {}, {P("*.CMAKE", {"Y.CMAKE"}, FALSE)}, {Pin("**/b/*.cmake", "b", {"x.cmake", "z.cmake", "x-y.cmake", "d.e-f.cmake", "l1.cmake", "x.d.cmake", ".h.cmake", "e~.cmake"})}, {P("x.cmake/", {"x.cmake"}, TRUE), P("b/", {"b"}, TRUE)}, {P("z.cmake", {"z.cmake"}, FALSE)}, {P("a/", {"a"}, TRUE), P("b", {"b"}, FALSE)}, {P("x.cmake", {"x.cmake"}, FALSE), P("z.cmake", {"z.cmake"}, FALSE)},
+                      {P("*.cmake", {"x.cmake", "z.cmake", "x-y.cmake", "d.e-f.cmake", "l1.cmake", "x.d.cmake", ".h.cmake", "e~.cmake"}, FALSE)} }
 MCOutSub == [top |-> <<dout>>, sub |-> <<da, dout>>]
 NoDev == {}
 CurrentDev == {}
